@@ -710,6 +710,11 @@ impl WriterSet {
             self.segment_size,
             self.compression,
         )?;
+        // Offsets of the new segment must not be compared with the last synced offset of the
+        // old one: start a fresh watch for the new segment. Waiters of the old segment keep
+        // the old channel, whose final value (published by the sync above) covers them.
+        let (sync_tx, _) = watch::channel(self.writer.write_offset());
+        self.sync_tx = sync_tx;
         let old_reader = mem::replace(
             &mut self.reader,
             BucketSegmentReader::open(
